@@ -489,4 +489,52 @@ theorem runToks_insts {insts : List Inst} {toks : List CSObj} (h : InstsToks ins
           rw [ih]
           cases run (nodeOf nx) (if i.op = Fig9.BX then c + 1 else if i.op = Fig9.EX then c - 1 else c) rest <;> rfl
 
+/-! ## 3. the property theorems -/
+
+/-- the tokenizer splits the rendered stream into the tokens of the syntax tree
+    (one `CSObjP` call per operand and operator, each consuming at least one byte) -/
+def Lexes (d : Nat) (p : Prog) : Prop :=
+  ∃ toks, InstsToks p.insts toks ∧ LexAll d p.render toks
+
+/-
+  FULL STATEMENTS (what C12 asks for):
+    valid_walk_extracts : ∀ d ≥ 1, ∀ p, p.ok → expected p = some ts → extract d p.render = .ok ts
+    deviation_rejected  : ∀ d ≥ 1, ∀ p, p.ok → expected p = none    → extract d p.render = .err .guard
+  PROVED BELOW: the same with the hypothesis `Lexes d p` in place of `p.ok ∧ d ≥ 1`, i.e. everything
+  about the state diagram, the operator table, the compatibility counter, the operand checks of
+  Tj ' " TJ, the separator tokens, the loop-exit discipline, fuel and white space — for ALL trees.
+  MISSING: the lexer round trip `p.ok → d ≥ 1 → Lexes d p` (numbers, names, strings, arrays,
+  dictionaries are re-read as written).  It is exercised on every generated case by the
+  correspondence run (the judge checks `p.ok`, `p.render = stream` and compares the real
+  extractor's output with `expected p`).
+-/
+
+/-- **valid_walk_extracts** (modulo lexing): a stream whose operator sequence Figure 9 permits and
+    whose text-showing operands are well-formed yields exactly the spec's tokens -/
+theorem valid_walk_extracts_partial (d : Nat) (p : Prog) (hl : Lexes d p) (ts : List Tok)
+    (he : expected p = some ts) : extract d p.render = .ok ts := by
+  obtain ⟨toks, h1, h2⟩ := hl
+  rw [extract_of_lex h2, runToks_insts h1 .content 0]
+  simp only [nodeOf]
+  unfold expected at he
+  rw [he]; rfl
+
+/-- **deviation_rejected** (modulo lexing): an operator in a state that does not permit it, an
+    unknown operator outside a compatibility section, or a text-showing operator with the wrong
+    number or kind of operands makes the whole extraction fail with an error -/
+theorem deviation_rejected_partial (d : Nat) (p : Prog) (hl : Lexes d p)
+    (he : expected p = none) : extract d p.render = .err .guard := by
+  obtain ⟨toks, h1, h2⟩ := hl
+  rw [extract_of_lex h2, runToks_insts h1 .content 0]
+  simp only [nodeOf]
+  unfold expected at he
+  rw [he]; rfl
+
+/-- consequence: the extractor never panics on a stream that lexes to a syntax tree -/
+theorem extract_total_on_trees (d : Nat) (p : Prog) (hl : Lexes d p) :
+    extract d p.render = toRes (expected p) := by
+  cases he : expected p with
+  | none => exact deviation_rejected_partial d p hl he
+  | some ts => exact valid_walk_extracts_partial d p hl ts he
+
 end Parsley.C12
